@@ -206,6 +206,7 @@ def shards(tier):
     for r in M.VALUES:
         out.append(("value", r[0], r[1], tier))
     out.append(("latch", tier))
+    out.append(("vendor",))
     for a0 in range(0, 64, 16):
         out.append(("addr_sweep", a0, a0 + 16))
     return out
@@ -213,6 +214,56 @@ def shards(tier):
 
 def run_shard(shard):
     res = new_result()
+    if shard[0] == "vendor":
+        # values an application declares itself (the documented extension point): their locations are a sequence "in the
+        # order required by the value" - descending (little-endian number), with a gap, or contiguous.  The write must store
+        # byte i at location i of the declaration and nowhere else.  (declared inside this shard's own process only)
+        from dali.memory.location import MemoryBank, MemoryLocation, MemoryType, NumericValue
+        from dali.address import GearShort, DeviceShort
+        VB = MemoryBank(9, 0x20, has_lock=True)
+
+        def declare(name, addrs, type_):
+            return type(name, (NumericValue,), {"bank": VB, "locations": tuple(MemoryLocation(a, type_=type_) for a in addrs)})
+        decls = [("Contiguous", (0x04, 0x05), MemoryType.NVM_RW), ("LittleEndian", (0x07, 0x06), MemoryType.NVM_RW),
+                 ("Gap", (0x09, 0x0B), MemoryType.NVM_RW), ("Reversed3Lockable", (0x12, 0x11, 0x10), MemoryType.NVM_RW_L),
+                 ("Scattered", (0x18, 0x14, 0x16), MemoryType.RAM_RW), ("StartsAtThree", (0x03,), MemoryType.NVM_RW)]
+        classes = [(n, a, declare("V" + n, a, t), t) for n, a, t in decls]
+        for name, addrs, cls, t in classes:
+            for fam in ("gear", "device"):
+                for opts in ({}, {"ignore_feedback": True}, {"force_unlock": True}):
+                    for lock0 in (0xFF, 0x55):
+                        cells = [0x20, 0x00, lock0] + [(0x80 + 3 * i) & 0xFF for i in range(3, 0x21)]
+                        bank = G.MemBank(9, cells, writable=set(range(3, 0x21)), lockable={0x10, 0x11, 0x12}, has_lock=True)
+                        before = list(bank.cells)
+                        if fam == "gear":
+                            bus = G.Bus([G.Gear(short=3, banks={9: bank})])
+                            addr = GearShort(3)
+                        else:
+                            bus = D.Bus24([D.Device(short=5, banks={9: bank})])
+                            addr = DeviceShort(5)
+                        raw = bytes((0x11 * (i + 1)) & 0xFF for i in range(len(addrs)))
+                        kind, val, n = G.run_sequence(cls.write_raw(addr, raw, **opts), bus, 200)
+                        case = {"t": "vendor", "name": name, "fam": fam, "opts": opts, "lock": lock0}
+                        res["evaluations"] += 1
+                        res["transitions"] += n
+                        if kind != "return":
+                            add_violation(res, f"C10:vendor:raised:{name}", f"user-declared value {name} at {[hex(a) for a in addrs]} ({fam}, {opts}): {kind} {val!r}", case)
+                            continue
+                        want = list(before)
+                        for a, b in zip(addrs, raw):
+                            want[a] = b
+                        diff = [(hex(i), bank.cells[i], want[i]) for i in range(3, 0x21) if bank.cells[i] != want[i]]
+                        if diff:
+                            add_violation(res, f"C10:vendor:stored-elsewhere:{name}", f"user-declared value {name} with locations {[hex(a) for a in addrs]} ({fam}, {opts}): "
+                                          f"write returned normally, but (location, holds, should hold) = {diff}", case)
+                        lockable = t == MemoryType.NVM_RW_L or opts.get("force_unlock")
+                        if lockable and bank.cells[2] == 0x55:
+                            add_violation(res, f"C10:vendor:left-unlocked:{name}", f"{name} ({fam}, {opts}): lock byte still 0x55", case)
+                        if not lockable and bank.cells[2] != lock0:
+                            add_violation(res, f"C10:vendor:lock-byte-changed:{name}", f"{name} ({fam}, {opts}): lock byte {lock0:#x} -> {bank.cells[2]:#x}", case)
+                        res["distinct"].add(("vendor", name, kind))
+        sample(res, {"user_declared_values": [n for n, a, c, t in classes]})
+        return res
     if shard[0] == "addr_sweep":
         # the same writes addressed to EVERY short address (gear and device), one fault at every answering step
         byname = M.by_name()
@@ -344,6 +395,8 @@ def replay(case):
     res = new_result()
     if case["t"] == "latch":
         return run_shard(("latch", "quick"))["violations"]
+    if case["t"] == "vendor":
+        return run_shard(("vendor",))["violations"]
     cfg = {k: case[k] for k in ("bank", "name", "raw", "fam", "lock", "variant", "opts", "via", "value", "sa") if k in case}
     row = M.by_name()[(cfg["bank"], cfg["name"])]
     nf = len(case.get("injected", []))
